@@ -124,6 +124,47 @@ def doReferenceOpts (doGc doEdge doRmask : Bool) (kT kA : BlockKeys) (hapX : Boo
   doReferenceOn (blockCfg true doGc doEdge doRmask kT) (blockCfg false doGc doEdge doRmask kA) hapX par sexes
     targets antitargets
 
+/-! ### the same, driven by what the translator reads off the source (Generated/RefConsts.lean) -/
+
+/-- the key column a step of `bias_correct_logr` refers to -/
+def stepKey (cfg : CorrCfg) : String → Option (List Rat)
+  | "gc" => cfg.gc
+  | "rmask" => cfg.rmask
+  | "edge" => cfg.edge
+  | _ => none
+
+/-- `correctLogr` with the order of the steps, the coverage threshold and the divisor of the skip test as data -/
+def correctLogrBy (order : List String) (thr : Rat) (div : Nat) (cfg : CorrCfg) (rows : List CovRow)
+    (logr : List Rat) : List Rat :=
+  let nOk := (logr.filter (fun v => decide (v > thr))).length
+  if nOk ≤ logr.length / div then logr else
+  let t0 := (rows.zip logr).map (fun p => toS p.1 p.2)
+  (order.foldl (fun t nm => corrStep cfg (stepKey cfg nm) t) t0).map (·.log2)
+
+/-- the value of a flag argument of `load_sample_block` as written in `combine_probes` -/
+def flagOf (doGc doEdge doRmask : Bool) : String → Bool
+  | "True" => true
+  | "fix_gc" => doGc
+  | "fix_edge" => doEdge
+  | "fix_rmask" => doRmask
+  | _ => false
+
+/-- `blockCfg` with the block's flag arguments (skip_low, fix_gc, fix_edge, fix_rmask) as data -/
+def blockCfgBy (flags : List String) (doGc doEdge doRmask : Bool) (k : BlockKeys) : CorrCfg :=
+  let fixGc := flagOf doGc doEdge doRmask (flags.getD 1 "")
+  let fixEdge := flagOf doGc doEdge doRmask (flags.getD 2 "")
+  let fixRmask := flagOf doGc doEdge doRmask (flags.getD 3 "")
+  let haveFasta := k.fastaGc.isSome || k.fastaRm.isSome
+  let gcCol : Option (List Rat) :=
+    if haveFasta && (fixRmask || fixGc) then (if fixGc then k.fastaGc else none)
+    else if fixGc then k.fileGc else none
+  let rmCol : Option (List Rat) :=
+    if haveFasta && (fixRmask || fixGc) then (if fixRmask then k.fastaRm else none) else none
+  { gc := if fixGc then gcCol else none,
+    rmask := if fixRmask then rmCol else none,
+    edge := if fixEdge then some k.edge else none,
+    perm := k.perm, wing := k.wing }
+
 /-! ### which sex each sample is taken to have (`do_reference`) -/
 
 /-- `do_reference`'s `sexes` dictionary.  `given = some f`: every TARGET file's sample id is mapped to `f`.
